@@ -106,6 +106,22 @@ CHECKS = {
             "Outcome and with the same evaluation performed alone (cross-checked against fresh interpreters); the caller's bindings are "
             "compared before and after; recorded random histories are accepted or rejected by the same state machine in TLC.",
             "Trusted: TLC, os.fork isolation. fork() is slow in this sandbox, so the number of replayed histories is budgeted.", "5/C05"),
+    "C10": ("TLA+ spec CelConv (decimal text over BigInt, truncation of exact dyadics, UTF-8 encode/decode, RFC 3339 and duration text) "
+            "checked by TLC for the round-trip equations; every conversion x boundary value, one and two steps, replayed under both "
+            "runners; random values through the laws and through Trace_Eval",
+            "TLC applies each conversion function and 18 two-step compositions to every value of boundary pools (int64/uint64 limits, "
+            "doubles around 2^63 and 2^64, NaN/inf, invalid UTF-8, timestamps at years 1/999/1000/9999, durations at the range ends, "
+            "RFC 3339 and duration texts in and out of range); the round trips and truncation toward zero are model invariants and "
+            "the implementation must return the specified value or error.",
+            "Trusted: TLC, BigInt. string(double)/double(string) are symbolic (checked as double(string(d)) == d inside CEL).", "5/C10"),
+    "C11": ("TLA+ spec CelTime (proleptic Gregorian calendar, instants as BigInt microseconds, accessors under offsets, duration text) "
+            "checked by TLC (calendar bijection, weekday cycle, add/sub laws); boundary instants x zones x accessors and boundary "
+            "arithmetic replayed under both runners; random instants / offsets / durations validated by Trace_Eval",
+            "TLC enumerates every month boundary +-1 us / +-1 s of a set of years x fixed offsets and a hand-encoded zone table x the "
+            "ten accessors, all arithmetic forms over boundary instants and durations (with range errors), and duration texts "
+            "assembled from components; calendar invariants are checked over a sweep of day numbers; no date library is involved in "
+            "any expected value.",
+            "Trusted: TLC, BigInt. IANA rules outside the hand-encoded table and inexact duration texts are out of model.", "5/C11"),
 }
 NOT_YET = "check not built yet in this phase (planned per DESIGN.md section 5)"
 
